@@ -884,6 +884,31 @@ fn families(tier: &str, r: &mut Rng) -> Vec<String> {
         out.push(render_s(&[Content::Ok(c0.clone()), Content::Ok(c1.clone())], &steps));
         out.push(render_s(&[Content::Ok(c0.clone()), bad.clone(), Content::Ok(c1.clone())], &steps));
     }
+    // [t7:in-use] F-idx: a request that fails must leave no trace - in particular the file index: a
+    // later plain lrld reloads the configuration that is running, lrld-next / lrld-prev step from it.
+    // Two or three files with the same keys (key1 = the request under test, key2 = the follow-up
+    // request, key0 types the marker of the running configuration), file 1 broken in every way
+    for nf in [2usize, 3] {
+        for broken in [Content::Syn, Content::Sem, Content::Mis, Content::Unr] {
+            for first in [Act::Next, Act::Prev, Act::Num(2), Act::File(1)] {
+                for follow in [Act::Lrld, Act::Next, Act::Prev, Act::Num(1)] {
+                    let files: Vec<Content> = (0..nf)
+                        .map(|i| if i == 1 { broken.clone() } else { Content::Ok(base(i as u16, vec![first.clone(), follow.clone()], vec![])) })
+                        .collect();
+                    let mut steps = vec![Step::T(2)];
+                    steps.extend(tap(1, 2));
+                    steps.push(Step::T(5));
+                    steps.extend(tap(0, 2));
+                    steps.extend(tap(2, 2));
+                    steps.push(Step::T(5));
+                    steps.extend(tap(0, 2));
+                    steps.extend(tap(2, 2));
+                    steps.extend(tap(0, 2));
+                    out.push(render_s(&files, &steps));
+                }
+            }
+        }
+    }
     let _ = r;
     out
 }
